@@ -34,11 +34,11 @@ Theorem C14_i2c_single_byte_corruption_detected : forall f img tail p v,
 Proof. exact i2c_corruption_detected. Qed.
 Print Assumptions C14_i2c_single_byte_corruption_detected.
 
-(* the version byte changed to a value other than 0/1: valid stays False (and the update callback is
-   never called: the element does nothing for unknown versions) *)
+(* the version byte changed to a value other than 0/1: valid is False, and the update completes (callback
+   delivered; F14c repaired) *)
 Theorem C14_i2c_version_byte_to_unknown_detected : forall f img tail v,
   i2c_wf f -> i2c_write f = Some img -> v <> 0 -> v <> 1 ->
-  exists e, i2c_parse (upd 4 v img ++ tail) = I2C_Res false false e.
+  exists e, i2c_parse (upd 4 v img ++ tail) = I2C_Res false true e.
 Proof. exact i2c_version_other. Qed.
 Print Assumptions C14_i2c_version_byte_to_unknown_detected.
 
@@ -155,15 +155,17 @@ Proof. exact lh_mem_roundtrip_calib. Qed.
 Print Assumptions C14_lh_memory_roundtrip_calib.
 
 (* ------------------------------------------------------------------ YAML files
-   The YAML library is a parameter: any dump/load pair with load (dump d) = Some d (validated by the
-   harness on every file the library writes).  Any subset of base stations, any plain values. *)
+   The YAML library is a parameter: any dump/load pair with load (dump d) = Some d FOR PLAIN DATA d (yv_plain:
+   None/bool/int/str, non-NaN floats, lists, dicts with str/int keys; a tuple or any other object is not a yv at
+   all).  The harness checks on every run that what the library hands to yaml.dump is inside this domain and that
+   the real PyYAML round-trips it through a real file.  Any subset of base stations. *)
 
 (* lighthouse system configuration file: read (write geos calibs system_type) returns exactly the objects
    that were valid, marked valid, and the system type; invalid ones are not written *)
 Theorem C14_lh_file_roundtrip :
   forall (file : Type) (yaml_dump : yv -> file) (yaml_safe_load : file -> option yv),
-  (forall d, yaml_safe_load (yaml_dump d) = Some d) ->
-  forall geos calibs st, calibs_wf calibs ->
+  (forall d, yv_plain d = true -> yaml_safe_load (yaml_dump d) = Some d) ->
+  forall geos calibs st, calibs_wf calibs -> yv_plain (lh_file_data geos calibs st) = true ->
     lh_cfg_read file yaml_safe_load (lh_cfg_write file yaml_dump geos calibs st) =
     LF_Ok (map (fun kg => (fst kg, geo_as_read (snd kg))) (filter (fun kg => fg_valid (snd kg)) geos))
           (map (fun kc => (fst kc, calib_as_read (snd kc))) (filter (fun kc => fc_valid (snd kc)) calibs))
@@ -174,10 +176,41 @@ Print Assumptions C14_lh_file_roundtrip.
 (* persistent-parameter file: every (is_stored, default_value, stored_value) triple comes back *)
 Theorem C14_param_file_roundtrip :
   forall (file : Type) (yaml_dump : yv -> file) (yaml_safe_load : file -> option yv),
-  (forall d, yaml_safe_load (yaml_dump d) = Some d) ->
-  forall params, param_cfg_read file yaml_safe_load (param_cfg_write file yaml_dump params) = PF_Ok params.
+  (forall d, yv_plain d = true -> yaml_safe_load (yaml_dump d) = Some d) ->
+  forall params, yv_plain (param_file_data params) = true ->
+    param_cfg_read file yaml_safe_load (param_cfg_write file yaml_dump params) = PF_Ok params.
 Proof. exact param_cfg_roundtrip. Qed.
 Print Assumptions C14_param_file_roundtrip.
+
+(* across the representations: memory images -> objects (set_from_mem_data: LISTS of the floats struct returns)
+   -> configuration file -> objects -> memory images (add_mem_data).  Every base station whose image is marked
+   valid comes back with exactly the fields it had (so add_mem_data writes the same 49 / 61 bytes); w / n are
+   struct's binary32 <-> Python-float conversions, required to be exact on the values involved *)
+Theorem C14_lh_geo_memory_file_memory :
+  forall (file : Type) (yaml_dump : yv -> file) (yaml_safe_load : file -> option yv),
+  (forall d, yv_plain d = true -> yaml_safe_load (yaml_dump d) = Some d) ->
+  forall (w n : Z -> Z) (geos : list (yv * lh_geo)) st,
+    (forall kg, In kg geos -> length (g_floats (snd kg)) = 12%nat /\ Forall (fun b => n (w b) = b) (g_floats (snd kg))) ->
+    let objs := map (fun kg => (fst kg, geo_obj_of_mem w (snd kg))) geos in
+    yv_plain (lh_file_data objs [] st) = true ->
+    exists back, lh_cfg_read file yaml_safe_load (lh_cfg_write file yaml_dump objs [] st) = LF_Ok back [] st /\
+      map (fun ko => (fst ko, geo_mem_of_obj n (snd ko))) back =
+      map (fun kg => (fst kg, Some (snd kg))) (filter (fun kg => g_valid (snd kg)) geos).
+Proof. exact lh_geo_mem_file_mem. Qed.
+Print Assumptions C14_lh_geo_memory_file_memory.
+
+Theorem C14_lh_calib_memory_file_memory :
+  forall (file : Type) (yaml_dump : yv -> file) (yaml_safe_load : file -> option yv),
+  (forall d, yv_plain d = true -> yaml_safe_load (yaml_dump d) = Some d) ->
+  forall (w n : Z -> Z) (calibs : list (yv * lh_calib)) st,
+    (forall kc, In kc calibs -> length (c_floats (snd kc)) = 14%nat /\ Forall (fun b => n (w b) = b) (c_floats (snd kc))) ->
+    let objs := map (fun kc => (fst kc, calib_obj_of_mem w (snd kc))) calibs in
+    yv_plain (lh_file_data [] objs st) = true ->
+    exists back, lh_cfg_read file yaml_safe_load (lh_cfg_write file yaml_dump [] objs st) = LF_Ok [] back st /\
+      map (fun ko => (fst ko, calib_mem_of_obj n (snd ko))) back =
+      map (fun kc => (fst kc, Some (snd kc))) (filter (fun kc => c_valid (snd kc)) calibs).
+Proof. exact lh_calib_mem_file_mem. Qed.
+Print Assumptions C14_lh_calib_memory_file_memory.
 
 (* ------------------------------------------------------------------ deck-memory info section *)
 
@@ -267,22 +300,21 @@ Theorem C14_i2c_pending_implies_not_valid : forall ops,
 Proof. exact i2c_run_inv. Qed.
 Print Assumptions C14_i2c_pending_implies_not_valid.
 
-(* finding F14c: the "or False" above happens.  An unknown version byte leaves the update pending for ever; a
-   correct image written afterwards through the same object is never read, valid stays False, no callback *)
-Theorem C14_i2c_update_ignored_after_unfinished_read :
-  let '(st, mem) := i2c_run f14c_ops in
-  i2c_valid (i2c_parse mem) = true /\ is_valid st = false /\ is_pending st = true /\ is_cbs st = 0.
-Proof. exact i2c_f14c. Qed.
-Print Assumptions C14_i2c_update_ignored_after_unfinished_read.
+(* F14c repaired: on a device that serves the two read requests every update completes, whatever the image
+   holds (unknown version bytes included): callback delivered exactly once, nothing stays pending; so the
+   "not pending" factor above can only come from a failed read request (a device error) *)
+Theorem C14_i2c_update_completes : forall st mem, is_pending st = false -> (21 <= length mem)%nat ->
+  is_pending (fst (i2c_update st mem)) = false /\ is_cbs (fst (i2c_update st mem)) = is_cbs st + 1 /\
+  1 <= snd (i2c_update st mem) <= 2.
+Proof. exact i2c_update_completes. Qed.
+Print Assumptions C14_i2c_update_completes.
 
-(* finding F14e: 'radio_address' is only ever written by a version-1 read: after a version-1 image a valid
-   version-0 image read through the same object still shows the address of the earlier image *)
-Theorem C14_i2c_stale_radio_address :
-  let '(st, mem) := i2c_run f14e_ops in
-  i2c_parse mem = I2C_Res true true (Some (mk_i2c 0 80 2 0 0 None)) /\
-  is_valid st = true /\ is_elems st = Some (mk_i2c 0 80 2 0 0 (Some 996028180225)).
-Proof. exact i2c_f14e. Qed.
-Print Assumptions C14_i2c_stale_radio_address.
+(* F14e repaired: a valid read reports exactly the fields of the image read (no radio address left over from an
+   earlier version-1 image), whatever the object read or was given before *)
+Theorem C14_i2c_fields_reflect_last_read : forall st mem cb f, is_pending st = false ->
+  i2c_parse mem = I2C_Res true cb (Some f) -> is_elems (fst (i2c_update st mem)) = Some f.
+Proof. exact i2c_fields_last_read. Qed.
+Print Assumptions C14_i2c_fields_reflect_last_read.
 
 Theorem C14_ow_valid_reflects_last_read : forall ops mem,
   let st := fst (ow_run ops) in
@@ -290,18 +322,11 @@ Theorem C14_ow_valid_reflects_last_read : forall ops mem,
 Proof. exact ow_valid_last_read. Qed.
 Print Assumptions C14_ow_valid_reflects_last_read.
 
-(* with an empty dictionary the elements after an accepted update are exactly the fresh parse's *)
-Theorem C14_ow_elements_of_last_read_when_dict_empty : forall st mem o,
-  os_pending st = false -> os_elems st = [] -> ow_parse mem = OW_Res o ->
-  os_elems (fst (fst (ow_update st mem))) = ow_elements o.
-Proof. exact ow_update_elems_fresh. Qed.
-Print Assumptions C14_ow_elements_of_last_read_when_dict_empty.
-
-(* finding F14d: the dictionary is never cleared by the library: an element of an earlier image survives a later
-   valid read of an image that does not contain it *)
-Theorem C14_ow_stale_elements :
-  let '(st, mem) := ow_run f14d_ops in
-  ow_parse mem = OW_Res (mk_ow true true 0 188 18 [(1, [90])] None) /\
-  os_valid st = true /\ os_elems st = [(1, [90]); (2, [67])].
-Proof. exact ow_f14d. Qed.
-Print Assumptions C14_ow_stale_elements.
+(* F14d repaired: a valid read reports exactly the header and the elements of the image read, whatever the
+   dictionary held before (elements of earlier images, or what the caller put there for write_data) *)
+Theorem C14_ow_elements_reflect_last_read : forall st mem o, os_pending st = false ->
+  ow_parse mem = OW_Res o -> ow_valid o = true ->
+  os_elems (fst (fst (ow_update st mem))) = ow_elements o /\
+  os_hdr (fst (fst (ow_update st mem))) = Some (ow_pins o, ow_vid o, ow_pid o).
+Proof. exact ow_elems_last_read. Qed.
+Print Assumptions C14_ow_elements_reflect_last_read.
